@@ -219,7 +219,8 @@ void Value::do_sub() {
     if (!get_arith_uint256(Value(args[0]), a)) return;
     if (!get_arith_uint256(Value(args[1]), b)) return;
     if (args.size() == 3 && !get_arith_uint256(Value(args[2]), g)) return;
-    b = -b;
+    // additive inverse of b: modulo g when a group is given (add() expects operands below g), modulo 2^256 otherwise
+    if (g.EqualTo(0)) b = -b; else if (!b.EqualTo(0)) b = g - b;
     add(data, a, b, g);
 }
 
